@@ -7,15 +7,23 @@
 #include <unistd.h>
 #include <time.h>
 #include <fcntl.h>
+static char *(*real_getenv)(const char *);
+static __thread int inlog;
 static void logit(const char *what, const char *arg) {
-	const char *p = getenv("C20_AUDIT_LOG");
-	if (!p) return;
+	if (!real_getenv) real_getenv = dlsym(RTLD_NEXT, "getenv");
+	if (inlog) return;
+	inlog = 1;
+	const char *p = real_getenv("C20_AUDIT_LOG");
+	if (!p) { inlog = 0; return; }
 	int fd = open(p, O_WRONLY | O_APPEND | O_CREAT, 0644);
-	if (fd < 0) return;
+	if (fd < 0) { inlog = 0; return; }
 	char buf[256]; int n = snprintf(buf, sizeof buf, "%s %s\n", what, arg ? arg : "");
 	if (write(fd, buf, n) < 0) {}
 	close(fd);
+	inlog = 0;
 }
+/* the compiler proper has no business reading its environment */
+char *getenv(const char *n) { if (!real_getenv) real_getenv = dlsym(RTLD_NEXT, "getenv"); if (!inlog) logit("getenv", n); return real_getenv ? real_getenv(n) : 0; }
 char *setlocale(int cat, const char *loc) { static char *(*real)(int, const char *); if (!real) real = dlsym(RTLD_NEXT, "setlocale"); if (loc) logit("setlocale", loc); return real(cat, loc); }
 time_t time(time_t *t) { static time_t (*real)(time_t *); if (!real) real = dlsym(RTLD_NEXT, "time"); logit("time", 0); return real(t); }
 int rand(void) { static int (*real)(void); if (!real) real = dlsym(RTLD_NEXT, "rand"); logit("rand", 0); return real(); }
